@@ -19,7 +19,9 @@
 Project distribution.
 """
 import collections
+import contextlib
 import functools
+import importlib.util
 import logging
 import pathlib
 import re
@@ -266,6 +268,8 @@ class Manifest(collections.namedtuple('Manifest', 'name, version, package, modul
         """
         path = self.path(path)
         path.parent.mkdir(parents=True, exist_ok=True)
+        with contextlib.suppress(OSError, NotImplementedError):  # drop bytecode of a manifest previously read here
+            pathlib.Path(importlib.util.cache_from_source(str(path))).unlink()
         with path.open('w') as manifest:
             manifest.write(
                 self.TEMPLATE.substitute(
